@@ -36,6 +36,9 @@ impl Tier {
 pub struct Obs {
     pub nontrivial: bool,
     pub labels: Vec<&'static str>,
+    /// failures that were noted while the rest of the case was still checked (used for sites with a
+    /// known finding, so that one known defect does not hide the other checks of the same case)
+    pub deferred: Vec<Failure>,
 }
 
 impl Obs {
@@ -43,6 +46,7 @@ impl Obs {
         Obs {
             nontrivial,
             labels: Vec::new(),
+            deferred: Vec::new(),
         }
     }
     pub fn label(&mut self, l: &'static str) {
@@ -256,6 +260,14 @@ fn fingerprint<C: Serialize>(c: &C) -> (u64, usize) {
     (h.finish(), bytes.len())
 }
 
+/// like `run_case`, but a deferred failure counts as the failure of the case (replay / diagnosis)
+pub fn run_case_strict<C>(run: fn(&C) -> Outcome, c: &C) -> Outcome {
+    match run_case(run, c) {
+        Ok(mut obs) if !obs.deferred.is_empty() => Err(obs.deferred.remove(0)),
+        o => o,
+    }
+}
+
 pub fn run_case<C>(run: fn(&C) -> Outcome, c: &C) -> Outcome {
     match catch_unwind(AssertUnwindSafe(|| run(c))) {
         Ok(o) => o,
@@ -291,7 +303,7 @@ where
 
     fn replay(&self, case: &serde_json::Value) -> Result<Outcome, String> {
         let c: C = serde_json::from_value(case.clone()).map_err(|e| format!("cannot decode case: {e}"))?;
-        Ok(run_case(self.run, &c))
+        Ok(run_case_strict(self.run, &c))
     }
 
     fn campaign(&self, ctx: &Ctx, known_open: &HashSet<String>) -> SubReport {
@@ -328,7 +340,24 @@ where
                             runner.run(&strat, |case: C| {
                                 let mut acc = acc_cell.borrow_mut();
                                 let acc = &mut *acc;
-                                let out = run_case(this.run, &case);
+                                let mut out = run_case(this.run, &case);
+                                // deferred failures: known ones are counted and dropped, an unknown one fails the case
+                                if let Ok(obs) = &mut out {
+                                    let deferred = std::mem::take(&mut obs.deferred);
+                                    let mut unknown = None;
+                                    for f in deferred {
+                                        if known_open.contains(&f.sig) {
+                                            if acc.failed.is_none() {
+                                                *acc.excluded.entry(f.sig.clone()).or_default() += 1;
+                                            }
+                                        } else if unknown.is_none() {
+                                            unknown = Some(f);
+                                        }
+                                    }
+                                    if let Some(f) = unknown {
+                                        out = Err(f);
+                                    }
+                                }
                                 if acc.failed.is_some() {
                                     // shrinking phase: no counting
                                     return match out {
@@ -415,7 +444,7 @@ where
             }
             if let (Some(c), None) = (minimal, &rep.violation) {
                 // diagnose the minimal case again to get its own message
-                let f = match run_case(self.run, &c) {
+                let f = match run_case_strict(self.run, &c) {
                     Err(f) => f,
                     Ok(_) => acc.failed.clone().unwrap_or(Failure {
                         sig: "flaky".into(),
